@@ -38,7 +38,9 @@ MANIFEST = {
     "keys (the KeyError branch is unreachable); a BranchTypeError is raised iff (no variable being undefined) some variable reaches a block with two different types along two followed paths and is read afterwards (branchtype_iff: soundness and completeness of the BFS comparison). The model is "
     "tied to cfg_checker.py on every run: generated programs go through the real check(), the captured real CFG is replayed in the Lean "
     "model, and an independent path-enumeration oracle decides the property's literal statement on that CFG.",
-    "level_note": "Trusted: Lean kernel + 3 standard axioms; event abstraction of statements; CFG builder (C03).",
+    "level_note": "Trusted: Lean kernel + 3 standard axioms; event abstraction of statements (reads/writes of names, literal type tags); "
+    "nested function definitions and for-loop temporaries are abstracted by the harness into events; the model terminates with an explicit "
+    "fuel bound (check_terminates). Two oracles: path search on the captured real CFG and a source-level analysis independent of the CFG builder.",
     "technique": "Lean 4 proof (BFS invariant over block signatures on top of the C09 liveness theorems) + correspondence on captured real CFGs + path-enumeration oracle",
     "design_ref": "DESIGN.md §5 C08",
     "ready": True,
